@@ -20,6 +20,9 @@ pub struct Cfg {
     pub ct: bool,
     pub lazy: bool,
     pub defer_ms: (u64, u64),
+    pub from: Option<String>,
+    pub rmidx: Vec<usize>,
+    pub patch: Option<String>,
 }
 
 impl Cfg {
@@ -57,6 +60,9 @@ impl Cfg {
             ct: m.get("rt").map(|s| s == "ct").unwrap_or(false),
             lazy: g("lazy", 0) != 0,
             defer_ms: defer,
+            from: m.get("from").cloned(),
+            rmidx: m.get("rmidx").map(|s| s.split(',').filter_map(|x| x.parse().ok()).collect()).unwrap_or_default(),
+            patch: m.get("patch").cloned(),
         }
     }
 }
@@ -656,6 +662,26 @@ impl<const N: usize> ScenN<N> {
         if toks[0] == "snap" {
             return self.snapshot();
         }
+        if toks[0] == "replayfrom" && toks.len() >= 2 {
+            // replace the directory by a committed corpus directory (written by the pinned release) and reopen
+            if let Some(st) = self.st.take() {
+                let _ = self.rt.block_on(async { tokio::time::timeout(Duration::from_secs(60), st.close()).await });
+            }
+            let _ = std::fs::remove_dir_all(&self.dir);
+            Self::copy_dir(Path::new(toks[1]), &self.dir.clone());
+            let mut lazy = false;
+            for t in toks.iter().skip(2) {
+                if let Some(ids) = t.strip_prefix("rmidx=") {
+                    for id in ids.split(',') {
+                        let _ = std::fs::remove_file(self.dir.join(format!("t.{}.index", id)));
+                    }
+                }
+                if *t == "lazy" {
+                    lazy = true;
+                }
+            }
+            return self.open(lazy);
+        }
         if toks[0] == "dmgsweep" {
             return self.dmgsweep(&toks);
         }
@@ -748,7 +774,15 @@ impl<const N: usize> ScenN<N> {
             }
             match data.get(b) {
                 Some((l, s)) => format!("{}:{}", l, s),
-                None => format!("{}:?", b.len()),
+                None => {
+                    // data written in another session (corpus directories): recognise the generator's output
+                    let seed = b[0] as u64;
+                    if gen_data(b.len(), seed) == b {
+                        format!("{}:{}", b.len(), seed)
+                    } else {
+                        format!("{}:?", b.len())
+                    }
+                }
             }
         };
         match toks[0] {
@@ -977,6 +1011,7 @@ impl<const N: usize> ScenN<N> {
                 }
                 s
             }
+            "corrupted" => format!("n={}", st.corrupted_blobs_count()),
             "settle" => Self::settle(st).await,
             "quiesce" => {
                 Self::quiesce(st).await;
@@ -1188,6 +1223,37 @@ fn new_scen(cfg: Cfg, dir: PathBuf) -> Option<Box<dyn Scen>> {
             match cfg.key {
                 $($n => {
                     let lazy = cfg.lazy;
+                    if let Some(from) = cfg.from.clone() {
+                        ScenN::<$n>::copy_dir(Path::new(&from), &dir);
+                        for id in &cfg.rmidx {
+                            let _ = std::fs::remove_file(dir.join(format!("t.{}.index", id)));
+                        }
+                        match cfg.patch.as_deref() {
+                            Some("blobver") => {
+                                // format version field of the first blob header (bytes 8..12)
+                                let p = dir.join("t.0.blob");
+                                if let Ok(mut b) = std::fs::read(&p) {
+                                    if b.len() >= 12 { b[8] = b[8].wrapping_add(1); }
+                                    let _ = std::fs::write(&p, b);
+                                }
+                            }
+                            Some("idxver") => {
+                                // version byte of every index header (byte 72 = version << 1 | written)
+                                if let Ok(rd) = std::fs::read_dir(&dir) {
+                                    for e in rd.flatten() {
+                                        let p = e.path();
+                                        if p.extension().map_or(false, |x| x == "index") {
+                                            if let Ok(mut b) = std::fs::read(&p) {
+                                                if b.len() > 72 { b[72] = b[72].wrapping_add(2); }
+                                                let _ = std::fs::write(&p, b);
+                                            }
+                                        }
+                                    }
+                                }
+                            }
+                            _ => {}
+                        }
+                    }
                     let mut s = ScenN::<$n>::new(cfg, dir);
                     let r = s.open(lazy);
                     if r != "ok" { eprintln!("init failed: {}", r); s.dead = Some(r); }
